@@ -143,7 +143,7 @@ CLAIMS = {
     'C05': ('Machine-checked proof (Coq) over M1, for EVERY run (any program, listener scripts, schedule of pause/play/resume/kill/fail/late callbacks/ticks; no '
             'bound): every step function or continuation that starts and every sample taken by code inside a step (also after an await) sees the process not '
             'paused; pause() and play() never raise; between loop callbacks a process whose step is in flight is not paused (a pause takes effect at a step '
-            'boundary); a pending pause is always the armed, still pending pause action of a step in flight (Life/LifePtr.v). By symbolic execution on every quiet world: pause() between steps pauses at once with the message as status and the previous status '
+            'boundary); a pending pause is always the armed, still pending pause action of a step in flight (Life/LifePtr.v); while the process reports paused no step is in flight, no interrupt action is armed and neither a pause nor a kill is pending (Life/LifePaused.v). By symbolic execution on every quiet world: pause() between steps pauses at once with the message as status and the previous status '
             'remembered; play() un-pauses and restores exactly that status. The uninterrupted reference run of command programs is the reference interpreter '
             '(C13). Tied to the code by ~2.5k real runs per quick run: every selection of <= 3 pause/play/resume requests per loop iteration at every boundary, '
             'compared step by step with the uninterrupted run.',
